@@ -7,6 +7,7 @@ import Mb2.Lemmas.Build
 import Mb2.Lemmas.Tags
 import Mb2.Props.C16
 import Mb2.Props.C02
+import Mb2.Props.C07
 namespace Mb2.C06
 open Mb2
 
@@ -275,5 +276,311 @@ theorem slot_put_other (st : BState) (slot other : String) (multi : Bool) (img :
       cases hc : (x.1 == other)
       · exact ih
       · rfl
+
+/-- a heap-built information tag with truthful tail is a well-formed builder image -/
+theorem boxed_wf (p : Profile) (typ base e : Nat) (slices : List Bytes) (he : 0 < e)
+    (hb : base ≤ 8 + slices.flatten.length) (hr : (8 + slices.flatten.length - base) % e = 0)
+    (hlen : 8 + slices.flatten.length < 4294967296) :
+    ∃ img, boxedImg p typ (dstDesc base e) slices = .ok img ∧ img.typ = typ ∧ img.size = 8 + slices.flatten.length ∧
+      WFImg img.asBytes := by
+  refine ⟨_, C07.boxed_ctor_exact p typ base e slices he hb hr (by omega), rfl, rfl, ?_⟩
+  exact sizedImg_wf typ slices.flatten hlen
+
+theorem chunk24_len : ∀ (l : Bytes), (∀ c ∈ chunk24 l, c.length = 24) ∧ (chunk24 l).length * 24 ≤ l.length := by
+  intro l
+  fun_induction chunk24 l with
+  | case1 => simp
+  | case2 l hne hlt => simp
+  | case3 l hne hge ih =>
+    constructor
+    · intro c hc
+      simp only [List.mem_cons] at hc
+      rcases hc with h | h
+      · subst h; simp [List.length_take]; omega
+      · exact ih.1 c h
+    · have := ih.2
+      simp only [List.length_cons, List.length_drop] at this ⊢
+      omega
+
+theorem mmap_areas_len (blob : Bytes) :
+    (((chunk24 blob).map fun a => a.take 20 ++ zeros 4).flatten).length = (chunk24 blob).length * 24 := by
+  have h := (chunk24_len blob).1
+  generalize chunk24 blob = cs at h
+  induction cs with
+  | nil => rfl
+  | cons c rest ih =>
+    have hc := h c (by simp)
+    have ih' := ih (fun x hx => h x (by simp [hx]))
+    simp only [List.map_cons, List.flatten_cons, List.length_append, List.length_cons, List.length_take, zeros,
+      List.length_replicate] at ih' ⊢
+    rw [ih']
+    omega
+
+theorem sizedImg_wf' (typ c : Nat) (payload : Bytes) (hc : c = 8 + payload.length) (hs : c < 4294967296) :
+    WFImg ((sizedImg typ c payload).asBytes) := by
+  subst hc; exact sizedImg_wf typ payload hs
+
+/-- every fixed-size information-tag constructor yields a well-formed builder image, for ALL argument values -/
+theorem sized_ctor_wf : ∀ c ∈ C07.sizedCtors, ∀ (p : Profile) (blob : Bytes), c.2.2 ≤ blob.length →
+    ∃ img, ctorImpl p c.1 blob = .ok img ∧ img.typ = c.2.1.typ ∧ WFImg img.asBytes := by
+  intro c hc p blob hlen
+  simp only [C07.sizedCtors, List.mem_cons, List.mem_nil_iff, or_false] at hc
+  rcases hc with h | h | h | h | h | h | h | h | h | h | h | h | h <;> subst h <;> simp only at hlen
+  all_goals
+    refine ⟨_, rfl, rfl, ?_⟩
+    refine sizedImg_wf' _ _ _ ?_ (by decide)
+    simp only [List.length_append, List.length_cons, List.length_nil, zeros, List.length_replicate]
+    repeat rw [slice_length _ _ _ (by omega)]
+
+theorem newBoxed_network (p : Profile) (typ : Nat) (slices : List Bytes) (hlen : slices.flatten.length < 2^62) :
+    newBoxed p .tag networkDesc (mbiHdr typ 0) slices =
+      .ok ⟨mbiHdr typ (8 + slices.flatten.length) ++ slices.flatten, roundUp8 (8 + slices.flatten.length), 8,
+           roundUp8 (8 + slices.flatten.length)⟩ := by
+  have hL : slices.flatten.length < 4611686018427387904 := hlen
+  have hW := W64_eq
+  unfold newBoxed
+  simp only [HK.hsize]
+  rw [incAlign_eq p _ (by omega)]
+  simp only [Res.bind_ok]
+  have hd : networkDesc.dstLen p (8 + slices.flatten.length) = .ok slices.flatten.length := by
+    simp only [networkDesc]
+    rw [usub_ok p _ _ _ (by omega)]
+    congr 1; omega
+  rw [hd]
+  simp only [Res.bind_ok]
+  have hs : networkDesc.sizeOfVal slices.flatten.length = roundUp8 (8 + slices.flatten.length) := by
+    simp only [networkDesc, TyDesc.sizeOfVal, roundUp, roundUp8]
+    have e2 : 8 + slices.flatten.length * 1 + 8 - 1 = 8 + slices.flatten.length + 7 := by omega
+    rw [e2]
+  rw [hs, if_neg (by simp), setSize_mbiHdr]
+  rfl
+
+/-- an operation the boot-information builder accepts (constructor preconditions as documented by their asserts) -/
+def MOpOk (op : String × Bytes) : Prop :=
+  op.2.length + 64 < 2^32 ∧
+  ((∃ c ∈ C07.sizedCtors, c.1 = op.1 ∧ c.2.2 ≤ op.2.length) ∨
+   op.1 = "cmdline" ∨ op.1 = "loader" ∨
+   (op.1 = "module" ∧ 8 ≤ op.2.length ∧ le32 op.2 4 > le32 op.2 0) ∨
+   op.1 = "mmap" ∨ (op.1 = "fb" ∧ 24 ≤ op.2.length) ∨ (op.1 = "elf" ∧ 12 ≤ op.2.length) ∨
+   (op.1 = "smbios" ∧ 8 ≤ op.2.length) ∨ op.1 = "network" ∨
+   (op.1 = "efimmap" ∧ 8 ≤ op.2.length ∧ le32 op.2 0 ≠ 0) ∨
+   (op.1 = "custom" ∧ 4 ≤ op.2.length ∧ 21 < le32 op.2 0))
+
+theorem slice_length_le (b : Bytes) (a n : Nat) : (slice b a n).length ≤ n ∧ (slice b a n).length ≤ b.length - a := by
+  unfold slice; simp only [List.length_take, List.length_drop]; omega
+
+theorem getLast_len (s : Bytes) : ((if s.getLast? = some 0 then [s] else [s, [0]]) : List Bytes).flatten.length ≤ s.length + 1 := by
+  split <;> simp
+
+theorem mopImg_wf (p : Profile) (name : String) (blob : Bytes) (h : MOpOk (name, blob)) :
+    ∃ img, opImg p name blob = .ok img ∧ WFImg img.asBytes := by
+  obtain ⟨hL, h⟩ := h
+  simp only at hL h
+  have hL' : blob.length + 64 < 4294967296 := hL
+  rcases h with ⟨c, hc, hn, hl⟩ | hn | hn | ⟨hn, h8, hgt⟩ | hn | ⟨hn, h24⟩ | ⟨hn, h12⟩ | ⟨hn, h8⟩ | hn | ⟨hn, h8, hne⟩ | ⟨hn, h4, hty⟩
+  · obtain ⟨img, hi, _, hw⟩ := sized_ctor_wf c hc p blob hl
+    refine ⟨img, ?_, hw⟩
+    unfold opImg
+    rw [← hn]
+    simp only [C07.sizedCtors, List.mem_cons, List.mem_nil_iff, or_false] at hc
+    rcases hc with h | h | h | h | h | h | h | h | h | h | h | h | h <;> subst h <;> rw [if_neg (by decide)] <;> exact hi
+  · -- cmdline
+    subst hn
+    have hg := getLast_len blob
+    obtain ⟨img, hi, _, _, hw⟩ := boxed_wf p 1 8 1 (if blob.getLast? = some 0 then [blob] else [blob, [0]])
+      (by omega) (by omega) (Nat.mod_one _) (by omega)
+    refine ⟨img, ?_, hw⟩
+    unfold opImg; rw [if_neg (by decide)]
+    simp only [ctorImpl, Kind.desc]; exact hi
+  · -- loader
+    subst hn
+    have hg := getLast_len blob
+    obtain ⟨img, hi, _, _, hw⟩ := boxed_wf p 2 8 1 (if blob.getLast? = some 0 then [blob] else [blob, [0]])
+      (by omega) (by omega) (Nat.mod_one _) (by omega)
+    refine ⟨img, ?_, hw⟩
+    unfold opImg; rw [if_neg (by decide)]
+    simp only [ctorImpl, Kind.desc]; exact hi
+  · -- module
+    subst hn
+    have l0 : (slice blob 0 4).length = 4 := slice_length _ _ _ (by omega)
+    have l4 : (slice blob 4 4).length = 4 := slice_length _ _ _ (by omega)
+    have hfl : ((if (blob.drop 8).getLast? = some 0 then [slice blob 0 4, slice blob 4 4, blob.drop 8]
+        else [slice blob 0 4, slice blob 4 4, blob.drop 8, [0]]) : List Bytes).flatten.length ≤ blob.length + 1 ∧
+        8 ≤ ((if (blob.drop 8).getLast? = some 0 then [slice blob 0 4, slice blob 4 4, blob.drop 8]
+        else [slice blob 0 4, slice blob 4 4, blob.drop 8, [0]]) : List Bytes).flatten.length := by
+      split <;> simp [l0, l4] <;> omega
+    obtain ⟨img, hi, _, _, hw⟩ := boxed_wf p 3 16 1 (if (blob.drop 8).getLast? = some 0 then [slice blob 0 4, slice blob 4 4, blob.drop 8]
+        else [slice blob 0 4, slice blob 4 4, blob.drop 8, [0]]) (by omega) (by omega) (Nat.mod_one _) (by omega)
+    refine ⟨img, ?_, hw⟩
+    unfold opImg; rw [if_neg (by decide)]
+    simp only [ctorImpl, Kind.desc]
+    rw [if_neg (by omega)]; exact hi
+  · -- mmap
+    subst hn
+    have hc := (chunk24_len blob).2
+    have hfl : ([enc32 24, enc32 0, ((chunk24 blob).map fun a => a.take 20 ++ zeros 4).flatten] : List Bytes).flatten.length =
+        8 + (chunk24 blob).length * 24 := by
+      simp only [List.flatten_cons, List.flatten_nil, List.length_append, enc32_length, List.length_nil, mmap_areas_len]
+      omega
+    obtain ⟨img, hi, _, _, hw⟩ := boxed_wf p 6 16 24
+      [enc32 24, enc32 0, ((chunk24 blob).map fun a => a.take 20 ++ zeros 4).flatten] (by omega) (by rw [hfl]; omega) (by rw [hfl]; omega)
+      (by rw [hfl]; omega)
+    refine ⟨img, ?_, hw⟩
+    unfold opImg; rw [if_neg (by decide)]
+    simp only [ctorImpl, Kind.desc]; exact hi
+  · -- fb
+    subst hn
+    have key : ∀ slices : List Bytes, 24 ≤ slices.flatten.length → slices.flatten.length ≤ blob.length + 8 →
+        ∃ img, boxedImg p 8 (dstDesc 32 1) slices = .ok img ∧ WFImg img.asBytes := fun sl h1 h2 => by
+      obtain ⟨img, hi, _, _, hw⟩ := boxed_wf p 8 32 1 sl (by omega) (by omega) (Nat.mod_one _) (by omega)
+      exact ⟨img, hi, hw⟩
+    unfold opImg; rw [if_neg (by decide)]
+    simp only [ctorImpl, Kind.desc]
+    have l0 : (slice blob 0 8).length = 8 := slice_length _ _ _ (by omega)
+    have l1 : (slice blob 8 4).length = 4 := slice_length _ _ _ (by omega)
+    have l2 : (slice blob 12 4).length = 4 := slice_length _ _ _ (by omega)
+    have l3 : (slice blob 16 4).length = 4 := slice_length _ _ _ (by omega)
+    have s1 := slice_length_le (blob.drop 24) 2 (3 * (((blob.drop 24).length - 2) / 3))
+    have hd : (blob.drop 24).length = blob.length - 24 := by simp
+    apply key
+    · simp only [List.flatten_cons, List.flatten_nil, List.length_append, l0, l1, l2, l3, List.length_cons, List.length_nil]
+      omega
+    · simp only [List.flatten_cons, List.flatten_nil, List.length_append, l0, l1, l2, l3, List.length_cons, List.length_nil]
+      split
+      · simp only [List.length_append, enc16_length]; omega
+      · split
+        · simp only [List.length_take]; omega
+        · simp only [List.length_nil]; omega
+  · -- elf
+    subst hn
+    have l0 : (slice blob 0 4).length = 4 := slice_length _ _ _ (by omega)
+    have l1 : (slice blob 4 4).length = 4 := slice_length _ _ _ (by omega)
+    have l2 : (slice blob 8 4).length = 4 := slice_length _ _ _ (by omega)
+    have hfl : ([slice blob 0 4, slice blob 4 4, slice blob 8 4, blob.drop 12] : List Bytes).flatten.length = blob.length := by
+      simp only [List.flatten_cons, List.flatten_nil, List.length_append, l0, l1, l2, List.length_drop, List.length_nil]; omega
+    obtain ⟨img, hi, _, _, hw⟩ := boxed_wf p 9 20 1 [slice blob 0 4, slice blob 4 4, slice blob 8 4, blob.drop 12]
+      (by omega) (by omega) (Nat.mod_one _) (by omega)
+    refine ⟨img, ?_, hw⟩
+    unfold opImg; rw [if_neg (by decide)]
+    simp only [ctorImpl, Kind.desc]; exact hi
+  · -- smbios
+    subst hn
+    have hfl : ([[UInt8.ofNat (u8At blob 0), UInt8.ofNat (u8At blob 1)], zeros 6, blob.drop 8] : List Bytes).flatten.length = blob.length := by
+      simp only [List.flatten_cons, List.flatten_nil, List.length_append, List.length_cons, zeros, List.length_replicate,
+        List.length_drop, List.length_nil]; omega
+    obtain ⟨img, hi, _, _, hw⟩ := boxed_wf p 13 16 1 [[UInt8.ofNat (u8At blob 0), UInt8.ofNat (u8At blob 1)], zeros 6, blob.drop 8]
+      (by omega) (by omega) (Nat.mod_one _) (by omega)
+    refine ⟨img, ?_, hw⟩
+    unfold opImg; rw [if_neg (by decide)]
+    simp only [ctorImpl, Kind.desc]; exact hi
+  · -- network
+    subst hn
+    have hfl : ([blob] : List Bytes).flatten.length = blob.length := by simp
+    refine ⟨⟨16, none, 8 + blob.length, mbiHdr 16 (8 + blob.length) ++ blob, roundUp8 (8 + blob.length)⟩, ?_, ?_⟩
+    · unfold opImg; rw [if_neg (by decide)]
+      simp only [ctorImpl, Kind.desc, boxedImg]
+      rw [newBoxed_network p 16 [blob] (by rw [hfl]; omega)]
+      simp
+    · exact sizedImg_wf 16 blob (by omega)
+  · -- efimmap
+    subst hn
+    have l0 : (slice blob 0 4).length = 4 := slice_length _ _ _ (by omega)
+    have l1 : (slice blob 4 4).length = 4 := slice_length _ _ _ (by omega)
+    have hfl : ([slice blob 0 4, slice blob 4 4, blob.drop 8] : List Bytes).flatten.length = blob.length := by
+      simp only [List.flatten_cons, List.flatten_nil, List.length_append, l0, l1, List.length_drop, List.length_nil]; omega
+    obtain ⟨img, hi, _, _, hw⟩ := boxed_wf p 17 16 1 [slice blob 0 4, slice blob 4 4, blob.drop 8]
+      (by omega) (by omega) (Nat.mod_one _) (by omega)
+    refine ⟨img, ?_, hw⟩
+    unfold opImg; rw [if_neg (by decide)]
+    simp only [ctorImpl, Kind.desc]
+    rw [if_neg hne]; exact hi
+  · -- custom
+    subst hn
+    have hfl : ([blob.drop 4] : List Bytes).flatten.length = blob.length - 4 := by simp
+    refine ⟨sizedImg (le32 blob 0) (8 + (blob.drop 4).length) (blob.drop 4), ?_, sizedImg_wf _ _ (by simp; omega)⟩
+    unfold opImg; rw [if_pos rfl, if_neg (by omega)]
+    simp only [boxedImg]
+    rw [C16.newBoxed_generic_tag p _ [blob.drop 4] (by rw [hfl]; omega), setSize_mbiHdr]
+    simp [sizedImg]
+
+/-- builder-state invariant: every stored tag image is well-formed -/
+def StWF (st : BState) : Prop := ∀ slot, ∀ img ∈ st.get slot, WFImg img.asBytes
+
+theorem stwf_empty : StWF [] := by
+  intro slot img h; simp [BState.get] at h
+
+theorem stwf_put (st : BState) (slot : String) (multi : Bool) (img : Img) (h : StWF st) (hw : WFImg img.asBytes) :
+    StWF (st.put slot multi img) := by
+  intro s i hi
+  by_cases hs : s = slot
+  · subst hs
+    rw [slot_put_same] at hi
+    cases multi
+    · simp at hi; subst hi; exact hw
+    · simp at hi
+      rcases hi with hi | hi
+      · exact h s i hi
+      · subst hi; exact hw
+  · rw [slot_put_other st slot s multi img hs] at hi
+    exact h s i hi
+
+/-- a builder never panics on operations whose constructor succeeds with a well-formed image, and every stored image
+    stays well-formed (induction over the call history) -/
+theorem runOps_wf_of (p : Profile) (slots : List (String × Bool)) (ok : String × Bytes → Prop)
+    (hok : ∀ op, ok op → ∃ img, opImg p op.1 op.2 = .ok img ∧ WFImg img.asBytes)
+    (ops : List (String × Bytes)) (hops : ∀ op ∈ ops, ok op) :
+    ∀ st, StWF st → ∃ st', runOps p slots st ops = .ok st' ∧ StWF st' := by
+  induction ops with
+  | nil => intro st h; exact ⟨st, rfl, h⟩
+  | cons op rest ih =>
+    intro st h
+    obtain ⟨img, hi, hw⟩ := hok op (hops op (by simp))
+    obtain ⟨name, blob⟩ := op
+    simp only at hi
+    unfold runOps
+    rw [hi]
+    exact ih (fun o ho => hops o (by simp [ho])) _ (stwf_put st name _ img h hw)
+
+/-- C06 END TO END (model): for EVERY sequence of accepted builder operations (any of the 22 slots, any argument values
+    meeting the constructors' documented preconditions, any order, any repetitions), `Builder::build` stores per slot the
+    image(s) of the calls (last call for `Option` slots, all calls in order for the repeatable ones), every stored image
+    is well-formed, and - unless the result would exceed the 32-bit size field - the built structure
+    (a) is produced without panic with allocation size = total size = deallocation size, 8-aligned;
+    (b) has a first word equal to its byte count, a multiple of 8;
+    (c) loads successfully; and
+    (d) its tag walk yields exactly the stored tags, in slot order, followed by exactly one end tag. -/
+theorem buildMbi_wellformed (p : Profile) (ops : List (String × Bytes)) (hops : ∀ op ∈ ops, MOpOk op) :
+    ∃ st, runOps p mbiSlots [] ops = .ok st ∧
+      let imgs := (mbiSlots.flatMap fun s => st.get s.1).map Img.asBytes
+      (∀ b ∈ imgs, WFImg b) ∧
+      (imgs.flatten.length + 16 < 2^32 →
+        let total := 8 + imgs.flatten.length + 8
+        let bytes := enc32 total ++ enc32 0 ++ (imgs.flatten ++ endImg)
+        buildMbi p ops = .ok ⟨bytes, total, 8, total⟩ ∧
+        bytes.length = total ∧ total % 8 = 0 ∧
+        load p false bytes = .ok (.ok ⟨0, total, total⟩) ∧
+        Spec.tagsOf .tag ((bytes.take total).drop 8) =
+          (itemsOf .tag imgs 0 ++ [⟨imgs.flatten.length, 0, 8, 0⟩], .done)) := by
+  obtain ⟨st, hrun, hst⟩ := runOps_wf_of p mbiSlots MOpOk (fun op h => mopImg_wf p op.1 op.2 h) ops hops [] stwf_empty
+  refine ⟨st, hrun, ?_⟩
+  intro imgs
+  have hwf : ∀ b ∈ imgs, WFImg b := by
+    intro b hb
+    simp only [imgs, List.mem_map, List.mem_flatMap] at hb
+    obtain ⟨img, ⟨s, _, hi⟩, rfl⟩ := hb
+    exact hst s.1 img hi
+  refine ⟨hwf, ?_⟩
+  intro hlen total bytes
+  obtain ⟨h1, h2, h3, h4, h5⟩ := build_wellformed p imgs hwf hlen
+  refine ⟨?_, h2, h3, h4, ?_⟩
+  · unfold buildMbi
+    rw [hrun]
+    exact h1
+  · rw [h5]
+    exact built_area_walk .tag endImg rfl (by decide) imgs hwf
+
+/-! Non-vacuity: a concrete accepted operation sequence builds -/
+example : MOpOk ("meminfo", [1,0,0,0, 2,0,0,0]) := ⟨by simp, Or.inl ⟨("meminfo", .meminfo, 8), by simp [C07.sizedCtors], rfl, by simp⟩⟩
+example : (buildMbi .dev [("meminfo", [1,0,0,0, 2,0,0,0]), ("cmdline", [104, 105])]).isOk = true := by decide
 
 end Mb2.C06
